@@ -12,6 +12,14 @@ def T(shards=16, deadline_s=60, grace_s=60):
 DASTARD_COMMON = ["zz_verif_common_test.go"]
 
 PROPS = {
+    "C20": {
+        "pkg": ".", "hdir": "dastard", "harness": DASTARD_COMMON + ["zz_verif_trig_test.go", "zz_verif_c20_test.go"], "test": "TestVerifC20",
+        "quick": T(16, 90), "thorough": T(16, 900),
+        "rule": "one execution = one history of write-control requests, state labels and data blocks (with external-trigger lists and drop counts) through the real "
+                "WriteControl / SetExperimentStateLabel / ProcessSegments, all side files decoded after every STOP and again at the end; "
+                "non-trivial = at least one run was started and at least one event was due to be logged",
+        "assumptions": ["time stamps of START/STOP/UNPAUSE-label lines are chosen by dastard (time.Now) and only checked for format"],
+    },
     "C01": {
         "pkg": ".", "hdir": "dastard", "harness": DASTARD_COMMON + ["zz_verif_trig_test.go", "zz_verif_c01_test.go"], "test": "TestVerifC01",
         "quick": T(16, 90), "thorough": T(16, 900),
@@ -71,3 +79,11 @@ PROPS = {
                         "single goroutine: concurrent reader/writer processes are not modelled"],
     },
 }
+
+# Additional per-property entries live in bin/props.d/<id>.py, each defining a dict ENTRY = {"Cxx": {...}}.
+import glob as _glob
+import os as _os
+for _f in sorted(_glob.glob(_os.path.join(_os.path.dirname(_os.path.abspath(__file__)), "props.d", "*.py"))):
+    _ns = {"T": T, "DASTARD_COMMON": DASTARD_COMMON}
+    exec(compile(open(_f).read(), _f, "exec"), _ns)
+    PROPS.update(_ns.get("ENTRY", {}))
